@@ -1,6 +1,7 @@
 //! C01 — rendering is total: any bytes, width and configuration; never panics or hangs.
 use super::common::*;
 use crate::cfg::{render, render_route, staged_renders, CfgSpec, Deco, Rend, Route, StagedKind};
+use super::fuzzsub::FuzzSub;
 use crate::engine::{Ctx, EnumSub, PropSub, Property, Stats, Tier};
 use crate::gen::{self, Doc, Mutation, G};
 use crate::odom;
@@ -364,6 +365,8 @@ pub fn property() -> Property {
             PropSub::new("mutated", 40_000, 400_000, move || total_case(g.clone(), true), check_total).with_validity(|c| c.doc.valid()).boxed(),
             PropSub::new("grammar", 16_000, 160_000, move || total_case(g2.clone(), false), check_total).with_validity(|c| c.doc.valid()).boxed(),
             EnumSub::new("ladder", false, ladder_items, check_ladder).with_hang_secs(4000).boxed(),
+            FuzzSub { name: "fuzz_render", target: "fuzz_render", props: &["C01"], seconds: 300 }.boxed(),
+            FuzzSub { name: "fuzz_struct", target: "fuzz_struct", props: &["C01"], seconds: 180 }.boxed(),
         ],
     }
 }
